@@ -358,10 +358,10 @@ def S.sizeLoop : Nat → S → Rd → Nat → Nat → Rd × Except Err Nat
   | fuel + 1, s, rd, shift, size =>
     match rd.readByte with
     | (rd, some b, _) =>
-      let size := size + (b.toNat % 128) * 2 ^ shift
-      if b.toNat < 128 then (rd, .ok size)
-      else if shift ≥ 21 then (rd, .error (mkErr ["reset"]))
-      else S.sizeLoop fuel s rd (shift + 7) size
+      match remLenStep shift size b with
+      | .done n => (rd, .ok n)
+      | .tooLong => (rd, .error (mkErr ["reset"]))
+      | .more n => S.sizeLoop fuel s rd (shift + 7) n
     | (rd, none, e) => (rd, .error (mkErr [ueof (e.getD .hard)]))
 
 /-- the `Peek` loop of `peekPacket` (client.go:820-849): deadline expiry is tolerated after progress -/
@@ -422,36 +422,51 @@ inductive PubResult
   | err (e : Err)
 deriving DecidableEq, Repr
 
-/-- `onPUBLISH` (client.go:1360-1419) -/
-def S.onPUBLISH (s : S) (head : UInt8) : S × PubResult :=
-  match s.peek with
+/-- what `onPUBLISH` reads off the packet body (client.go:1360-1419), before
+any state is consulted -/
+inductive PubParse
+  | atMostOnce (payload topic : Bytes)
+  | atLeastOnce (id : Nat) (payload topic : Bytes)
+  | exactlyOnce (id : Nat) (payload topic : Bytes)
+  | violation
+deriving DecidableEq, Repr
+
+def parsePublish (head : UInt8) (peek : Bytes) : PubParse :=
+  match peek with
   | hi :: lo :: _ =>
     let i := beU16 hi lo + 2
-    if i > s.peek.length then (s, .err (mkErr ["reset"])) else
-    let topic := (s.peek.take i).drop 2
+    if i > peek.length then .violation else
+    let topic := (peek.take i).drop 2
     let qos := head.toNat / 2 % 4
-    if qos == 0 then (s, .msg (s.peek.drop i) topic)
-    else if qos == 3 then (s, .err (mkErr ["reset"]))
+    if qos == 0 then .atMostOnce (peek.drop i) topic
+    else if qos == 3 then .violation
     else
-      match s.peek.drop i with
+      match peek.drop i with
       | ih :: il :: payload =>
         let id := beU16 ih il
-        if id == 0 then (s, .err (mkErr ["reset"])) else
-        if qos == 1 then
-          if !s.pendingAck.isEmpty then (s, .err (mkErr ["other"]))
-          else ({ s with pendingAck := ackPacket Facts.typePUBACK 0 id }, .msg payload topic)
-        else
-          match s.load (remoteKey id) with
-          | (s, .error e) => (s, .err e)
-          | (s, .ok (some _)) =>
-            -- received already: confirm again, the earlier PUBREC may have been lost
-            if !s.pendingAck.isEmpty then (s, .err (mkErr ["other"]))
-            else ({ s with pendingAck := ackPacket Facts.typePUBREC 0 id }, .dupe)
-          | (s, .ok none) =>
-            if !s.pendingAck.isEmpty then (s, .err (mkErr ["other"]))
-            else ({ s with pendingAck := ackPacket Facts.typePUBREC 0 id }, .msg payload topic)
-      | _ => (s, .err (mkErr ["reset"]))
-  | _ => (s, .err (mkErr ["reset"]))
+        if id == 0 then .violation
+        else if qos == 1 then .atLeastOnce id payload topic
+        else .exactlyOnce id payload topic
+      | _ => .violation
+  | _ => .violation
+
+/-- enqueue an acknowledgement for the next `ReadSlices` (the "internal error" guard included) -/
+def S.enqueueAck (s : S) (ack : Bytes) (r : PubResult) : S × PubResult :=
+  if !s.pendingAck.isEmpty then (s, .err (mkErr ["other"])) else ({ s with pendingAck := ack }, r)
+
+/-- `onPUBLISH` (client.go:1360-1419) -/
+def S.onPUBLISH (s : S) (head : UInt8) : S × PubResult :=
+  match parsePublish head s.peek with
+  | .violation => (s, .err (mkErr ["reset"]))
+  | .atMostOnce payload topic => (s, .msg payload topic)
+  | .atLeastOnce id payload topic => s.enqueueAck (ackPacket Facts.typePUBACK 0 id) (.msg payload topic)
+  | .exactlyOnce id payload topic =>
+    match s.load (remoteKey id) with
+    | (s, .error e) => (s, .err e)
+    | (s, .ok (some _)) =>
+      -- received already: confirm again, the earlier PUBREC may have been lost
+      s.enqueueAck (ackPacket Facts.typePUBREC 0 id) .dupe
+    | (s, .ok none) => s.enqueueAck (ackPacket Facts.typePUBREC 0 id) (.msg payload topic)
 
 def S.closeExchange (s : S) (ex : Option Nat) : S :=
   match ex with
